@@ -54,6 +54,9 @@ type Prover struct {
 	trace   bool
 	loadRep map[ssa.Value]ssa.Value
 	loadsOK bool
+	where   map[ssa.Instruction]ipos
+	writers []ssa.Instruction
+	f       *fa
 	nodes   int // total search nodes used (reported)
 }
 
@@ -584,7 +587,7 @@ func (P *Prover) elim(goal Poly, facts []Poly, depth int) bool {
 				continue
 			}
 			a, b := abs64(cf), abs64(cg)
-			g2 := goal.scale(a).add(constP(-(a - 1)), 1).add(f, -b)
+			g2 := goal.scale(a).add(constP(-(a-1)), 1).add(f, -b)
 			if len(g2.monos()) > len(goal.monos())+1 {
 				continue
 			}
@@ -666,7 +669,7 @@ func (P *Prover) prove(goal Poly, blk *ssa.BasicBlock, extra []Poly, hyps []hyp,
 				continue
 			}
 			a, b := abs64(cf), abs64(cg)
-			g2 := goal.scale(a).add(constP(-(a - 1)), 1).add(f, -b)
+			g2 := goal.scale(a).add(constP(-(a-1)), 1).add(f, -b)
 			if len(g2.monos()) <= len(goal.monos())+1 {
 				cands = append(cands, g2)
 			}
@@ -965,6 +968,7 @@ func (P *Prover) computeLoads() {
 		return
 	}
 	P.loadsOK = true
+	P.f = f
 	where := map[ssa.Instruction]ipos{}
 	var writers []ssa.Instruction
 	for _, b := range P.fn.Blocks {
@@ -975,6 +979,7 @@ func (P *Prover) computeLoads() {
 			}
 		}
 	}
+	P.where, P.writers = where, writers
 	byKey := map[string][]*ssa.UnOp{}
 	for _, b := range P.fn.DomPreorder() {
 		for _, in := range b.Instrs {
@@ -1049,4 +1054,23 @@ func reaches(from, to, avoid ipos) bool {
 		stack = append(stack, b.Succs...)
 	}
 	return false
+}
+
+// validAt: is the value read by load ld still what memory holds when control reaches `at`?
+func (P *Prover) validAt(ld *ssa.UnOp, at ssa.Instruction) bool {
+	if P.f == nil {
+		return false
+	}
+	A := P.f.P(ld.X)
+	p1, p2 := P.where[ld], P.where[at]
+	for _, w := range P.writers {
+		if !aliases(A, P.f.iw[w]) {
+			continue
+		}
+		pw := P.where[w]
+		if reaches(p1, pw, p1) && reaches(pw, p2, p1) {
+			return false
+		}
+	}
+	return true
 }
